@@ -471,7 +471,17 @@ func cmdRun(args []string) int {
 		// confirm in a fresh process
 		confirmed := false
 		for try := 0; try < 3 && !confirmed; try++ {
-			c := exec.Command(binList[0], "replay", "-q", m.Replay)
+			rb := binList[0]
+			for _, b := range binList {
+				base := filepath.Base(b)
+				switch {
+				case strings.Contains(m.Replay, "-tiny-") && strings.Contains(base, "tiny"),
+					strings.Contains(m.Replay, "-go126-") && strings.Contains(base, "126"),
+					strings.Contains(m.Replay, "-default-") && !strings.Contains(base, "tiny") && !strings.Contains(base, "126"):
+					rb = b
+				}
+			}
+			c := exec.Command(rb, "replay", "-q", m.Replay)
 			outb, _ := c.CombinedOutput()
 			if strings.Contains(string(outb), "VIOLATION property=") {
 				confirmed = true
